@@ -94,6 +94,8 @@ func GenSyntax(r *rand.Rand, o SynGenOpts) *Grammar {
 		g = s.deadNT()
 	case "lafirst":
 		g = s.laFirst()
+	case "manyterms":
+		g = s.manyTerms()
 	case "wide":
 		g = s.wide()
 	case "cyclic":
@@ -411,6 +413,22 @@ func splitHeads(r *rand.Rand, g *Grammar) {
 		}
 		g.NTs = append(g.NTs[:at:at], append([]*NTDef{tail}, g.NTs[at:]...)...)
 	}
+}
+
+// manyTerms: more than 256 terminals (token types beyond one byte), otherwise trivial.
+func (s *synGen) manyTerms() *Grammar {
+	n := 258 + s.r.Intn(60)
+	item := &NTDef{Head: "Item"}
+	for i := 0; i < n; i++ {
+		item.Alts = append(item.Alts, alt(Sym{STok, fmt.Sprintf("k%d", i)}))
+	}
+	// two-token alternatives with the late terminals, so that they matter as look-aheads too
+	item.Alts = append(item.Alts, alt(Sym{STok, fmt.Sprintf("k%d", n-1)}, Sym{STok, fmt.Sprintf("k%d", n-2)}))
+	sep := Sym{SStr, ";"}
+	return &Grammar{NTs: []*NTDef{
+		{Head: "S", Alts: []SAlt{alt(nt("Item")), alt(nt("S"), sep, nt("Item"))}},
+		item,
+	}}
 }
 
 // laFirst: whether two reductions of the same handle compete depends on a look-ahead that comes
